@@ -85,6 +85,33 @@ def ensure_build():
     return build.build()
 
 
+def dependencies_of(rel):
+    """transitive .v dependencies of a file of the development, read from coq_makefile's dependency file"""
+    deps = {}
+    try:
+        for line in open(os.path.join(COQ, ".Makefile.d"), encoding="utf-8"):
+            if ":" not in line:
+                continue
+            left, right = line.split(":", 1)
+            targets = [t for t in left.split() if t.endswith(".vo")]
+            if not targets:
+                continue
+            src = [x for x in right.split() if x.endswith(".v")]
+            reqs = [x[:-1] for x in right.split() if x.endswith(".vo")]
+            for t in targets:
+                deps[t[:-1]] = reqs
+    except OSError:
+        return set()
+    seen, todo = set(), [rel]
+    while todo:
+        f = todo.pop()
+        if f in seen:
+            continue
+        seen.add(f)
+        todo.extend(deps.get(f, []))
+    return seen
+
+
 def coqc(path, timeout=600):
     cmd = ["timeout", str(timeout), "coqc", "-Q", "theories", "BV", "-Q", "gen", "BVGen",
            "-Q", "props", "BVProps", "-w", "-notation-overridden,-deprecated", path]
